@@ -47,7 +47,7 @@ func genTxs(r *simrt.RNG, nonce *int64, pool *[]simrt.Op) []simrt.Op {
 		*nonce++
 		var op simrt.Op
 		if r.Chance(1, 6) {
-			op = simrt.Op{K: "none", I: []int64{int64(r.Intn(NAccounts)), *nonce}}
+			op = simrt.Op{K: "none", I: []int64{int64(r.Intn(NAccounts)), *nonce, int64(r.Intn(2))}}
 		} else {
 			from := r.Intn(NAccounts)
 			to := r.Intn(NAccounts) // self transfers included
